@@ -172,6 +172,9 @@ def _answers(g, n, arcs, which):
         t = []
         for x in V:
             t += tk_set(I(g.get_ancestors(N[x]))) + tk_set(I(g.get_descendants(N[x])))
+            if x % 2 and (set(g.get_ancestors(g.get_node(N[x]))) != set(g.get_ancestors(N[x]))
+                          or set(g.get_descendants(g.get_node(N[x]))) != set(g.get_descendants(N[x]))):
+                t += [999]
             t += gview(g.get_ancestral_graph(N[x])) + gview(g.get_descendant_graph(N[x]))
             t += gview(g.get_parents_graph(N[x])) + gview(g.get_children_graph(N[x]))
         for x, y in opairs:
@@ -212,11 +215,27 @@ def _answers(g, n, arcs, which):
             except AssertionError:
                 aux['dsets'].append(None)
         hashes[1] = C.hash_tokens(t)
+    def as_node(v):
+        return g.get_node(N[v])
+
+    def same_with_nodes(f, x, y, ref):
+        """the same query with Node objects instead of identifiers (first, second or both arguments) must answer the same"""
+        form = (x + 2 * y) % 4
+        if form == 3:
+            return True
+        a = as_node(x) if form in (0, 2) else N[x]
+        b = as_node(y) if form in (1, 2) else N[y]
+        try:
+            return sorted(I(f(g, a, b))) == ref
+        except Exception:  # noqa: BLE001
+            return False
     if which[2] or which[3]:
         conf = {(x, y): sorted(I(identify_confounders(g, N[x], N[y]))) for x, y in opairs}
         if which[2]:
             t = []
             for p in opairs:
+                if not same_with_nodes(identify_confounders, p[0], p[1], conf[p]):
+                    t += [999]
                 t += [0] + tk_set(conf[p])
             hashes[2] = C.hash_tokens(t)
             aux['conf'] = [conf[p] for p in opairs]
@@ -225,6 +244,8 @@ def _answers(g, n, arcs, which):
         for x, y in opairs:
             ins = sorted(I(identify_instruments(g, N[x], N[y])))
             med = sorted(I(identify_mediators(g, N[x], N[y])))
+            if not same_with_nodes(identify_instruments, x, y, ins) or not same_with_nodes(identify_mediators, x, y, med):
+                t += [999]
             t += [0] + tk_set(ins) + [0] + tk_set(med)
             aux['inst'].append(ins)
         hashes[3] = C.hash_tokens(t)
@@ -233,6 +254,8 @@ def _answers(g, n, arcs, which):
         for x in V:
             mb = sorted(I(identify_markov_boundary(g, N[x])))
             if sorted(identify_markov_boundary(g.skeleton, N[x])) != sorted(g.get_neighbors(N[x])):
+                t += [999]
+            if x % 2 and sorted(I(identify_markov_boundary(g, as_node(x)))) != mb:
                 t += [999]
             t += tk_set(mb)
             aux['mb'].append(mb)
